@@ -52,8 +52,8 @@ def opt_subsets(options):
 FUNCS = [(VW + "work", vw.work), (VW + "notcoro", vw.notcoro)]
 ECB = ("--end-callback", "end_callback", [(VW + "ecb", vw.ecb)])
 CCB = ("--cancel-callback", "cancel_callback", [(VW + "accb", vw.accb)])
-GROUP = ("--group-name", "group_name", [("g1", "g1"), ("g2", "g2")])
-MSG = ("--msg", "msg", [("m1", "m1")])
+GROUP = ("--group-name", "group_name", [("g1", "g1"), ("g2", "g2"), ("7", "7")])
+MSG = ("--msg", "msg", [("m1", "m1"), ("3.0", "3.0"), ("None", "None")])
 RE = ("--return-exceptions", "return_exceptions", [(None, True)])
 
 
@@ -105,7 +105,7 @@ def forms_for(cls_name, full=True):
     add("cancel_group", [[("g1", "g1"), ("nope", "nope")]], [MSG])
     add("flush", [], [RE], waits=True)
     add("gather_and_close", [], [RE], waits=True)
-    names = [([], ()), (["g1"], ("g1",)), (["g1", "g2"], ("g1", "g2")), (["nope"], ("nope",))]
+    names = [([], ()), (["g1"], ("g1",)), (["g1", "g2"], ("g1", "g2")), (["nope"], ("nope",)), (["7"], ("7",))]
     add("get_group_ids", [names], [], star=True)
     add("lock")
     add("unlock")
@@ -166,6 +166,7 @@ def history_alphabet(cls_name):
             f"map {VW}work [1,2,3] --num-concurrent 2 --group-name g2",
             "cancel 0", "cancel-group g1", "lock", "pool-size 1", "flush", "gather-and-close",
             f"apply {VW}boom --args (1,)",
+            f"apply {VW}work --group-name 7",
         ]
     return [allf[ln] for ln in lines]
 
@@ -173,7 +174,7 @@ def history_alphabet(cls_name):
 # --------------------------------------------------------------------------------------
 def obs(pool, rec):
     groups = {}
-    for g in ("g1", "g2", "apply-work-group-0", "map-work-group-0", "start-group-0", "start-group-1"):
+    for g in ("g1", "g2", "7", "None", "apply-work-group-0", "map-work-group-0", "start-group-0", "start-group-1"):
         try:
             groups[g] = tuple(sorted(pool.get_group_ids(g)))
         except X.InvalidGroupName:
